@@ -1,4 +1,5 @@
 //@ contract nitrogql_checker::common ::fn check_directives
+//@   requires [C03+C04+C05.dirs.pre_schema_wf] crate::schema_wf(definitions)
 //@   ensures [C03+C04+C05.dirs.frame] crate::extends_errs(old(result)@, final(result)@)
 //@   ensures [C03+C05.dirs.sound] final(result)@.len() == old(result)@.len() ==> crate::dirs_valid(definitions, variables, directives@, current_position@)
 //@   ensures [C04+C05.dirs.complete] crate::dirs_valid(definitions, variables, directives@, current_position@) ==> final(result)@.len() == old(result)@.len()
